@@ -98,3 +98,14 @@ func (h *History) delegationsOf(a staking.Address) []delegation {
 	sort.Slice(out, func(i, j int) bool { return bytes.Compare(out[i].escrow[:], out[j].escrow[:]) < 0 })
 	return out
 }
+
+// flipSignatureBit returns a copy of a signed transaction with one bit of its signature flipped
+// (nil if the transaction does not decode).
+func flipSignatureBit(raw []byte, bit int) []byte {
+	var st signature.Signed
+	if err := cbor.Unmarshal(raw, &st); err != nil {
+		return nil
+	}
+	st.Signature.Signature[(bit/8)%len(st.Signature.Signature)] ^= 1 << (bit % 8)
+	return cbor.Marshal(&st)
+}
